@@ -498,6 +498,16 @@ pub fn build(r: &mut Rng, cfg: &WCfg) -> Workload {
                 sup_idx.push(pick);
             }
         }
+        // the hierarchy stays acyclic: no class is its own super type, and the arbitrary super type names the
+        // generator left in place can never become the name of a later class of the jar
+        let own = s.this_class.clone();
+        s.interfaces.retain(|i| *i != own);
+        if s.super_class.as_ref() == Some(&own) {
+            s.super_class = Some(js("java/lang/Object"));
+        }
+        for c in s.super_class.iter().chain(s.interfaces.iter()) {
+            used.insert(st(c));
+        }
         u.push(UClass { name: s.this_class.clone(), in_jar: true, is_interface: is_itf, supers: sup_idx, fields: vec![], methods: vec![], enum_consts: vec![] });
         sems.push(s);
         let _ = gi;
